@@ -69,7 +69,7 @@ func callOKFact(c *Ctx, match func(call *ssa.Call) bool) Fact {
 		if !ok {
 			return false, false
 		}
-		v = stripConv(v)
+		v = resolveLoad(stripConv(v))
 		var call *ssa.Call
 		switch x := v.(type) {
 		case *ssa.Call:
